@@ -36,7 +36,7 @@ DotDescs == Flatten2([i \in DOMAIN BPairs |-> [t \in 1..3 |-> <<"ar", "dot", BPa
 MMDescs == Flatten2([i \in DOMAIN BPairs |-> [t \in 1..3 |->
               <<"ar", "matmul", BPairs[i][1] \o <<2, 3>>, BPairs[i][2] \o <<3, 2>>, Subsets2[t]>>]])
 
-BigBc == << <<"bc", <<4, 1>>, <<4, 5>>>>, <<"bc", <<1, 5>>, <<4, 5>>>>, <<"bc", <<5>>, <<2, 5>>>>, <<"bc", <<4, 1>>, <<2, 4, 5>>>>, <<"bc", <<1, 1>>, <<6, 4>>>> >>
+BigBc == << <<"bc", <<1, 17>>, <<2, 17>>>>, <<"bc", <<9, 1>>, <<9, 2>>>>, <<"bc", <<1>>, <<19>>>>,  <<"bc", <<4, 1>>, <<4, 5>>>>, <<"bc", <<1, 5>>, <<4, 5>>>>, <<"bc", <<5>>, <<2, 5>>>>, <<"bc", <<4, 1>>, <<2, 4, 5>>>>, <<"bc", <<1, 1>>, <<6, 4>>>> >>
 All == BigBc \o BcastDescs \o (IF Thorough THEN ArithAll ELSE ArithDescs) \o DotDescs \o MMDescs
 Descs == MyCases(All)
 
